@@ -11,6 +11,9 @@ BASES = {"C15-4": "cb9df21e3", "C17-5": "b294978b8~1", "C09-5": "12665fb0c~1"}
 LANES = int(sys.argv[1]) if len(sys.argv) > 1 else 4
 skip_tests = "--skip-tests" in sys.argv
 seeds = sorted(d.name for d in (VERIF / "seeded").iterdir() if d.is_dir() and not d.name.startswith("_"))
+excl = [x for a in sys.argv if a.startswith("--exclude=") for x in a.split("=", 1)[1].split(",")]
+only = [x for a in sys.argv if a.startswith("--only=") for x in a.split("=", 1)[1].split(",")]
+seeds = [s for s in seeds if s.split("-")[0] not in excl and (not only or s.split("-")[0] in only)]
 lanes = {}
 for s in seeds:
     lanes.setdefault(int(s[1:3]) % LANES, []).append(s)
